@@ -67,22 +67,27 @@ CODE_TEXT = {1: "implementation value differs from the specified value", 2: "imp
              5: "implementation panics/hangs where an error is specified", 6: "function/value mismatch", 9: "outside the specified fragment"}
 
 
-def judge(run, cases, outs, codes, fails, oracle, value_codes=(1, 2, 3), corr_codes=(4, 5, 6), region_sig="seq-collision"):
-    """Standard verdicts for a differential run against the reference interpreter."""
+REGION_SIGS = {1: "seq-collision", 2: "bytes-gap", 3: "sugar-tuple-ill-typed"}
+
+
+def judge(run, cases, outs, codes, fails, oracle, value_codes=(1, 2, 3), corr_codes=(4, 5, 6)):
+    """Standard verdicts for a differential run against the reference interpreter.
+    code = verdict + 100 * region; a failure inside the region of an open finding is attributed to it."""
     for f in fails:
         run.corr_breaks.append({"what": "reference interpreter could not be evaluated (Check/EvalCheck.v)", "log": f})
     for c in cases:
         code = codes.get(c["id"])
         if code in (None, 0, 9):
             continue
-        base = code - 100 if code >= 100 else code
+        base, region = code % 100, code // 100
+        sig = REGION_SIGS.get(region)
         rec = {"case": {"label": c.get("label"), "src": c["src"], "coq": c["coq"]}, "observed": outs.get(c["id"]),
                "oracle": oracle + ": " + CODE_TEXT.get(base, str(base))}
         if base in value_codes:
-            run.classify_failure(region_sig if code >= 100 else None, rec)
+            run.classify_failure(sig, rec)
         elif base in corr_codes:
-            if code >= 100:
-                run.classify_failure(region_sig, rec)
+            if sig and run.finding_for(sig):
+                run.classify_failure(sig, rec)
             else:
                 run.corr_breaks.append({"what": "implementation and reference interpreter disagree outside the property's own oracle", **rec})
 
